@@ -82,14 +82,23 @@ let () =
        | HsDone (a, c) -> "done:" ^ rn_of_wa a ^ "|" ^ rn_of_wc c ^ ":" ^ st)
     | _ -> "?args");
   register "run" (function [evs] ->
-      let evs = List.map rn_event_of (String.split_on_char ';' evs) in
-      let (_, tr) = rn_run NStandby evs in
-      String.concat "," (List.map (fun (s, f) ->
-          match f with
-          | FParked -> "_p"
-          | FRaw -> rn_status_str s ^ "w"
-          | FRewritten -> rn_status_str s ^ "r"
-          | FNone -> rn_status_str s ^ "n") tr)
+      let tev s =
+        let rest k = bytes_of_hex (let r = String.sub s k (String.length s - k) in if r = "" then "-" else r) in
+        match s.[0] with
+        | 'A' -> THsAct (s.[1] = '1')
+        | 'U' -> TTunIn (rest 1)
+        | 'V' -> TTunOut (rest 1)
+        | _ -> TMain (rn_event_of s) in
+      let evs = List.map tev (String.split_on_char ';' evs) in
+      let (_, tr) = rt_run (NStandby, false) evs in
+      String.concat "," (List.map2 (fun ev ((s, fl), f) ->
+          let sf = rn_status_str s ^ (if fl then "1" else "0") in
+          match ev, f with
+          | THsAct _, _ -> "__n"
+          | _, FParked -> "__p"
+          | _, FRaw -> sf ^ "w"
+          | _, FRewritten -> sf ^ "r"
+          | _, FNone -> sf ^ "n") evs tr)
     | _ -> "?args");
   register "chain" (function [envs; win; act; cfg] ->
       let es = List.map (fun e -> match String.split_on_char ':' e with
